@@ -131,6 +131,19 @@ def check(tier, seed, replay=None):
                 argv = ["--on-error=" + policy]
                 recipes.append({"kind": "noise", "policy": policy, "pipeline": "plain", "regions": 1, "before": 0, "vals": [enc(v) for v in vals], "hdr": 0,
                                 "runs": [{"argv": argv, "stdin": hexs(mark + b' 1 "a"\n')}, {"argv": argv, "stdin": hexs(b' 1 "a"\n')}]})
+        # many malformed regions in one input, each on lines of its own: every region is reported by a diagnostic that names one of its lines - also the
+        # last one, after hundreds of others (Trace_C06!CheckAttrib)
+        for filler, count in ((b"}", 300), (b"] ", 280), (b":\n", 270), (b"} x\n", 130), (b"\xff", 600)):
+            for policy in ("stdout", "stderr"):
+                lines = [b"1", filler * count, b"2", b"]", b'"a"', b"} :", b"3"]
+                spans, ln = [], 1
+                for piece in lines:
+                    k = piece.count(b"\n") + 1
+                    if piece not in (b"1", b"2", b'"a"', b"3"):
+                        spans.append([ln, ln + k])          # the diagnostic may name the line on which the next byte was pulled
+                    ln += k
+                recipes.append({"kind": "attrib", "policy": policy, "spans": spans, "wantrows": 4,
+                                "runs": [{"argv": ["--on-error=" + policy], "stdin": hexs(b"\n".join(lines) + b"\n")}]})
         # the same garbage, any bytes: lexer agreement (drift only)
         for i in range(100 if quick else 5000):
             data = bytes(rnd.choice(b' \n"\\u01-.eE+[]{},:trnfa\xc3\x80\xf0') for _ in range(rnd.choice([1, 2, 3, 5, 8, 13, 21])))
@@ -149,6 +162,12 @@ def check(tier, seed, replay=None):
         o = per[ri]
         rec = {"case": ri, "kind": rc["kind"], "in": list(bytes.fromhex(rc["runs"][0]["stdin"])), "out": list(bytes.fromhex(o[0]["out"])),
                "err": list(bytes.fromhex(o[0]["err"])), "res": o[0]["res"]}
+        if rc["kind"] == "attrib":
+            out, err = bytes.fromhex(o[0]["out"]), bytes.fromhex(o[0]["err"])
+            stream = out if rc["policy"] == "stdout" else err
+            rec = {"case": ri, "kind": "attrib", "res": o[0]["res"], "spans": rc["spans"], "wantrows": rc["wantrows"],
+                   "elines": [int(m.group(1)) for m in re.finditer(rb"(?m)^error:(\d+):", stream)],
+                   "nrows": sum(1 for ln in out.split(b"\n") if ln and not ln.startswith(b"error:"))}
         if rc["kind"] == "noise":
             rec.update({"policy": rc["policy"], "pipeline": rc["pipeline"], "regions": rc["regions"], "before": rc["before"], "vals": rc["vals"], "hdr": rc.get("hdr", 0),
                         "base": list(bytes.fromhex(o[1]["out"])), "bres": o[1]["res"] if not o[1]["err"] else "stderr-not-empty"})
